@@ -19,6 +19,8 @@ TREE_ASSUMPTIONS = [
 
 def run(c):
     c.proofs("theories/Properties/C10.v", clean=(c.tier == "thorough"))
+    # T1: exit signals travel through the Urgent queue only; a process that goes to sleep looks at every queue again (tie_sleep_rechecks_every_queue)
+    c.translate(['TieSched'])
     sm.machine(c, "machine", spec=["spec_no_orphans", "spec_noticed"], premise=["premise_terminated"],
                n_quick=1200, n_thorough=16000)
     sm.e2e(c, "c10", spec=["spec_e2e_no_orphans", "spec_e2e_prescribed"], premise=["premise_e2e_dead"], n_quick=30, n_thorough=500)
